@@ -817,7 +817,7 @@ func run(c *vh.Ctx) error {
 			return fmt.Errorf("fixture %s: Cbor() differs", f.Name)
 		}
 	}
-	c.Res.Rule = "a scenario = one connection, a program of 1-4 GetBlock/GetBlockRange calls, one scripted server reply per request from 18 classes (conforming single block of 7 eras, NoBlocks, StartBatch+BatchDone, non-matching hash, right hash wrong slot, 2-4 blocks, undecodable block, state-machine violations, stalls, ranges of 0-6 real blocks with slow callbacks); distinct by the JSON of the scenario; non-trivial = any call other than a conforming single GetBlock"
+	c.Res.Rule = "concurrent-callers class: one connection, 4 goroutines each making 1-2 GetBlock/GetBlockRange calls at once on the same client, every call with its own points and its own reply blocks (the scripted peer answers a request by its points), slow callbacks, 60 s timers so that no verdict depends on timing; sequential classes: a scenario = one connection, a program of 1-4 GetBlock/GetBlockRange calls, one scripted server reply per request from 18 classes (conforming single block of 7 eras, NoBlocks, StartBatch+BatchDone, non-matching hash, right hash wrong slot, 2-4 blocks, undecodable block, state-machine violations, stalls, ranges of 0-6 real blocks with slow callbacks); distinct by the JSON of the scenario; non-trivial = any call other than a conforming single GetBlock"
 	c.Res.Modelled = []string{
 		"the protocol engine (protocol.go) is abstracted in the LTS: agency-gated FIFO delivery, handler error = stop, doneChan closes only after recvLoop returns (engine itself: C11-C13)",
 		"user callbacks return nil and terminate; BlockFunc is configured (no BlockRawFunc, no pipeline)",
@@ -832,12 +832,20 @@ func run(c *vh.Ctx) error {
 		}
 		var rp struct {
 			Replay struct {
-				Scenario scenario `json:"scenario"`
-				Prog     []call   `json:"prog"`
+				Scenario   scenario   `json:"scenario"`
+				Prog       []call     `json:"prog"`
+				Concurrent *cscenario `json:"concurrent"`
 			} `json:"replay"`
 		}
 		if err := json.Unmarshal(b, &rp); err != nil {
 			return err
+		}
+		if rp.Replay.Concurrent != nil {
+			cfm := c.NewCaseFile("c23m", mheader())
+			cfm.Func, cfm.Type = "mmismatches", "mcase"
+			runConcurrentOne(c, cfm, *rp.Replay.Concurrent)
+			cfm.Flush()
+			return nil
 		}
 		sc := rp.Replay.Scenario
 		if len(sc.Prog) == 0 {
@@ -879,6 +887,8 @@ func run(c *vh.Ctx) error {
 		runOne(c, cf, sc)
 	}
 	cf.Flush()
+	// concurrent callers: 4 goroutines x mixed GetBlock / GetBlockRange on one client
+	concurrentClass(c)
 	return nil
 }
 
